@@ -54,6 +54,12 @@ func init() {
 		{"C03", "precedence", props.C03prec},
 		{"C13", "bytes", props.C13bytes},
 		{"C07", "adder", props.C07adder},
+		{"C05", "adder", props.C07adder},
+		{"C11", "fillbound", props.FillWithinBuffer},
+		{"C19", "fillbound", props.FillWithinBuffer},
+		{"C15", "swapped", props.SwappedArgs("ot", "circuit", "vole", "bmr", "gmw", "p2p", "sha2pc", "compiler", "compiler/ssa", "compiler/ast", "compiler/circuits")},
+		{"C06", "swapped", props.SwappedArgs("ot", "vole", "bmr")},
+		{"C02", "swapped", props.SwappedArgs("ot", "circuit")},
 		{"C09", "adder", props.C07adder},
 		{"C03", "adder", props.C07adder},
 		{"C19", "notify", props.NotifyBuffered("p2p")},
